@@ -523,8 +523,12 @@ def rule_scale_stacks(ctx, rep, langs=ALL_LANGS):
             ws = [c['w'] for c in lx['cardinals'] if c['class'] == cls]
             if ws:
                 scales.append(ws[-1])        # the plural / last listed form
-        starts = [' '.join(spellings(lang, n)[0]) for n in (1, 20, 999)]
-        seqs = [[a] for a in scales] + [[a, b] for a in scales for b in scales] + [[a, b, c] for a in scales for b in scales for c in scales]
+        starts = [' '.join(spellings(lang, n)[0]) for n in ((1, 20, 999) if ctx.tier == 'thorough' else (20, 999))]
+        seqs = [[a] for a in scales] + [[a, b] for a in scales for b in scales]
+        if ctx.tier == 'thorough':
+            seqs += [[a, b, c] for a in scales for b in scales for c in scales]
+        else:
+            seqs += [[a, b, c] for a in scales[-2:] for b in scales[-3:] for c in scales[-2:]]      # the large scales stacked three deep
         items = []
         for st in starts:
             for sq in seqs:
@@ -551,7 +555,190 @@ def rule_scale_stacks(ctx, rep, langs=ALL_LANGS):
             rep.violation(R, lang + '|no-panic', 'replace_numbers_in_text panics on %r: %s (%d of %d texts)' % (bad[0][0], bad[0][1][1], len(bad), okc + len(bad)))
         else:
             rep.ok(R, lang + '|no-panic', '%d texts' % okc)
-    rep.floor(R, total, 1500, 'texts rewritten')
+    rep.floor(R, total, 600, 'texts rewritten')
+
+
+DET = {'en': 'the', 'fr': 'le', 'es': 'el', 'pt': 'aquele', 'it': 'il', 'de': 'die', 'nl': 'de'}
+
+
+def corpus_blocks(lang):
+    """Number phrases of every kind the properties talk about, in one real language (generated, none taken from the crate's tests)."""
+    lx = lexicon(lang)
+    z = lx['zero']
+    sep = lx['decimal_sep']
+    cj = lx.get('conjunction')
+    sp = lambda n: ' '.join(spellings(lang, n)[0])        # noqa: E731
+    blocks = [sp(1), sp(7), sp(12), sp(20), sp(21), sp(70), sp(99), sp(100), sp(101), sp(1999), sp(21000), sp(2 * 10 ** 6 + 5),
+              z[0], '%s %s %s' % (z[0], z[0], sp(7)), '%s %s' % (sp(20), z[0]),
+              '%s %s %s' % (sp(3), sep, sp(5)), '%s %s %s' % (sp(2), sep, z[0]), '%s %s %s %s' % (sp(20), sep, z[0], sp(5)), '%s %s' % (sp(12), sep), '%s %s' % (sep, sp(3)),
+              '%s %s' % (sp(2), sp(3)), '%s, %s, %s' % (sp(1), sp(2), sp(3)), '%s %s' % (sp(20), sp(30)),
+              sp(21).replace(' ', '-'), sp(99).replace(' ', '-')]
+    for zs in z[1:]:
+        blocks += ['%s %s %s' % (zs, zs, sp(7)), '%s %s' % (zs, sp(5))]
+    for n in (1, 3, 21, 100):
+        o = ordinal_spellings(lang, n)
+        if o:
+            blocks.append(' '.join(o[0]))
+    if cj:
+        blocks += ['%s %s' % (cj, sp(1000)), '%s %s %s' % (sp(100), cj, sp(1)), '%s %s' % (sp(20), cj)]
+    # bare scale words are numbers on their own
+    for cls in SCALE_CLASSES[:3]:
+        ws = [c['w'] for c in lx['cardinals'] if c['class'] == cls and c['tier'] == 'core']
+        if ws:
+            blocks.append(ws[0])
+    if lang == 'en':
+        blocks += ['o', 'o o', 'o %s' % sp(5), '%s o %s' % (sp(5), sp(5))]
+    if lang == 'fr':
+        blocks += ['un ordinateur neuf', 'le vingt neuf', 'neuf']
+    out = []
+    for b in blocks:
+        if b not in out:
+            out.append(b)
+    return out
+
+
+def corpus_contexts(lang):
+    w1, w2 = WORDS[lang]
+    cj = lexicon(lang).get('conjunction') or LINKING[lang][0]
+    return [('', ''), (w1 + ' ', ' ' + w2), (w1 + ' ' + cj + ' ', ' ' + w2), (w1 + ' ' + DET[lang] + ' ', ''), ('', '.'), ('"', '"'), (w1 + ', ', ', ' + w2),
+            ('(', ') ' + w2), (w1 + '\r\n', '\r\n' + w2), (w1 + ': ', '; ' + w2), (w1 + ' ' + LINKING[lang][1] + ' ', '!')]
+
+
+def corpus(lang, tier='thorough'):
+    ctxs = corpus_contexts(lang)
+    if tier != 'thorough':
+        ctxs = [ctxs[i] for i in (0, 1, 2, 3, 5, 8)]      # quick: bare, between words, after the conjunction, after a determiner, quoted, CR LF
+    return [l + b + r for b in corpus_blocks(lang) for (l, r) in ctxs]
+
+
+def _ths(ctx):
+    return (0.0, 10.0) if ctx.tier == 'thorough' else (0.0,)
+
+
+def rule_corpus_whitespace(ctx, rep, langs=ALL_LANGS):
+    R = 'S17-WS-CORPUS'
+    rep.rule(R, 'replace_numbers_in_text at thresholds 0 and 10 on the generated corpus (every kind of number phrase x 11 contexts, per language): '
+                'white space added at either end comes out around the same rewriting, and every space replaced by a wider run of other '
+                'white-space characters gives the same rewriting with the same replacement (metamorphic: no expected output is assumed)')
+    wide = '\u2003\t'
+    jobs = {}
+    for lang in langs:
+        items = []
+        for i, t in enumerate(corpus(lang, ctx.tier)):
+            for th in _ths(ctx):
+                items.append((('bare', i, th), t, th))
+                items.append((('frame', i, th), '\u00a0 ' + t + '\n', th))
+                if '\r' not in t:
+                    items.append((('wide', i, th), t.replace(' ', wide), th))
+        jobs[lang] = items
+    res = _memo(ctx, 'sent-corpus-ws', jobs)
+    total = 0
+    for lang in langs:
+        bad, okc = [], 0
+        for key, text, th in jobs[lang]:
+            if key[0] == 'bare':
+                continue
+            total += 1
+            r0, r = res[lang][('bare', key[1], th)], res[lang][key]
+            if '?' in (r0[0], r[0]):
+                bad.append((text, r if r[0] == '?' else r0, ''))
+                continue
+            if r0[0] != 'ok':
+                continue
+            want = ('\u00a0 ' + r0[1] + '\n') if key[0] == 'frame' else r0[1].replace(' ', wide)
+            if r != ('ok', want):
+                bad.append((text + ' @%s' % th, r, want))
+            else:
+                okc += 1
+        _report(rep, R, lang, 'corpus', bad, okc)
+    rep.floor(R, total, 2500, 'sentences rewritten')
+
+
+def rule_corpus_case(ctx, rep, langs=ALL_LANGS):
+    R = 'S11-CASE-CORPUS'
+    rep.rule(R, 'replace_numbers_in_text at thresholds 0 and 10 on the generated corpus: the text in UPPER CASE and in Title Case is rewritten with '
+                'the same numbers at the same places as the lower-case text (compared letter-case-insensitively; metamorphic)')
+    jobs = {}
+    for lang in langs:
+        items = []
+        for i, t in enumerate(corpus(lang, ctx.tier)):
+            for th in _ths(ctx):
+                items.append((('bare', i, th), t, th))
+                items.append((('upper', i, th), t.upper(), th))
+                items.append((('title', i, th), ' '.join(w[:1].upper() + w[1:] for w in t.split(' ')), th))
+        jobs[lang] = items
+    res = _memo(ctx, 'sent-corpus-case', jobs)
+    total = 0
+    for lang in langs:
+        bad, okc = [], 0
+        for key, text, th in jobs[lang]:
+            if key[0] == 'bare':
+                continue
+            total += 1
+            r0, r = res[lang][('bare', key[1], th)], res[lang][key]
+            if '?' in (r0[0], r[0]):
+                bad.append((text, r if r[0] == '?' else r0, ''))
+                continue
+            if r0[0] != 'ok':
+                continue
+            if r[0] != 'ok' or r[1].lower() != r0[1].lower():
+                bad.append((text + ' @%s' % th, r, r0[1] + ' (up to letter case)'))
+            else:
+                okc += 1
+        _report(rep, R, lang, 'corpus', bad, okc)
+    rep.floor(R, total, 2500, 'sentences rewritten')
+
+
+def rule_corpus_context(ctx, rep, langs=ALL_LANGS):
+    R = 'S10-CORPUS-PARTS'
+    rep.rule(R, 'replace_numbers_in_text at thresholds 0, 10 and 100: every block of the generated corpus, put before and after each of six probe '
+                'blocks with a sentence of ordinary words between them, is rewritten as it is on its own (metamorphic)')
+    jobs = {}
+    for lang in langs:
+        blocks = corpus_blocks(lang)
+        lx = lexicon(lang)
+        sp = lambda n: ' '.join(spellings(lang, n)[0])        # noqa: E731
+        probes = [sp(7), sp(21), '%s %s %s' % (sp(3), lx['decimal_sep'], sp(5)), '%s %s' % (sp(12), lx['decimal_sep']), lx['zero'][0]]
+        o = ordinal_spellings(lang, 3)
+        if o:
+            probes.append(' '.join(o[0]))
+        items = []
+        if ctx.tier != 'thorough':
+            probes = probes[:4]
+        for th in ((0.0, 10.0, 100.0) if ctx.tier == 'thorough' else (0.0, 10.0)):
+            for i, b in enumerate(blocks):
+                items.append((('one', 'b', i, th), b, th))
+            for j, p_ in enumerate(probes):
+                items.append((('one', 'p', j, th), p_, th))
+            for i, b in enumerate(blocks):
+                for j, p_ in enumerate(probes):
+                    if (th == 100.0 or (th == 10.0 and ctx.tier != 'thorough')) and (i + j) % 3:
+                        continue
+                    items.append((('bp', i, j, th), '%s %s %s' % (b, FILLER[lang], p_), th))
+                    items.append((('pb', i, j, th), '%s %s %s' % (p_, FILLER[lang], b), th))
+        jobs[lang] = items
+    res = _memo(ctx, 'sent-corpus-ctx', jobs)
+    total = 0
+    for lang in langs:
+        bad, okc = [], 0
+        for key, text, th in jobs[lang]:
+            if key[0] == 'one':
+                continue
+            total += 1
+            _k, i, j, th = key
+            rb, rp, r = res[lang][('one', 'b', i, th)], res[lang][('one', 'p', j, th)], res[lang][key]
+            if '?' in (rb[0], rp[0], r[0]):
+                bad.append((text, [x for x in (r, rb, rp) if x[0] == '?'][0], ''))
+                continue
+            if rb[0] != 'ok' or rp[0] != 'ok':
+                continue
+            want = '%s %s %s' % ((rb[1], FILLER[lang], rp[1]) if key[0] == 'bp' else (rp[1], FILLER[lang], rb[1]))
+            if r != ('ok', want):
+                bad.append((text + ' @%s' % th, r, want))
+            else:
+                okc += 1
+        _report(rep, R, lang, 'A+separator+B', bad, okc)
+    rep.floor(R, total, 2000, 'sentences rewritten')
 
 
 NEUF_SENTENCES = ['un ordinateur neuf', 'le vingt neuf', 'un logement neuf', 'du pain neuf trois', 'le ticket neuf trois gagne', 'le lot deux neuf gagne',
@@ -634,6 +821,17 @@ def rule_zeros_in_sentences(ctx, rep, langs=ALL_LANGS):
             want[(lang, key)] = '%s %d 0 %s' % (w1, n, w2)
         items.append((('lone',), '%s %s %s' % (w1, z, w2), 0.0))
         want[(lang, ('lone',))] = '%s 0 %s' % (w1, w2)
+        # the other words for zero ("o", "nought" ..) lead a numeral exactly like the first one, alone, repeated and mixed with it
+        for zi, zs in enumerate(lexicon(lang)['zero'][1:]):
+            for n in (7, 21):
+                sp = ' '.join(spellings(lang, n)[0])
+                for k, zeros in ((1, [zs]), (2, [zs, zs]), (3, [zs, zs, zs]), (2, [z, zs]), (2, [zs, z]), (3, [zs, z, zs])):
+                    key = ('syn', zi, n, tuple(zeros))
+                    items.append((key, '%s %s %s %s' % (w1, ' '.join(zeros), sp, w2), 0.0))
+                    want[(lang, key)] = '%s %s%d %s' % (w1, '0' * k, n, w2)
+                    key = ('syn-start', zi, n, tuple(zeros))
+                    items.append((key, '%s %s' % (' '.join(zeros), sp), 0.0))
+                    want[(lang, key)] = '%s%d' % ('0' * k, n)
         jobs[lang] = items
     res = _memo(ctx, 'sent-zeros', jobs)
     total = 0
@@ -672,14 +870,55 @@ def _occ_work(job):
     return lang, [(key, occurrences(lang, text, th)) for key, text, th in items]
 
 
-def rule_occurrences_in_sentences(ctx, rep, langs=ALL_LANGS):
-    R = 'S06-OCCURRENCES'
-    rep.rule(R, 'find_numbers over the tokenizer\'s tokens of generated sentences (cardinals, ordinals, decimals, pairs, zeros) in each real language: '
-                'every span lies in the stream, spans increase and are disjoint, begin and end on a word token; the text is digits, optionally a '
-                'decimal mark and digits, optionally the ordinal marker (es 1/n); the value is the numeric reading of that text; the ordinal flag is '
-                'set exactly when the text carries a marker')
+def rule_threshold_corpus(ctx, rep, langs=ALL_LANGS):
+    R = 'S09-THRESHOLD-CORPUS'
+    rep.rule(R, 'find_numbers over the tokens of the generated corpus in each real language at thresholds 0 and 10: the occurrences at 10 are a '
+                'subset of those at 0 (same spans, texts, values), and every occurrence at 0 that is not small (more than one digit, a decimal, '
+                'or a value of at least 10) is still there at 10 — the threshold only hides small numbers')
+    jobs, res = _occ_tables(ctx)
+    total = 0
+    for lang in langs:
+        if lang not in jobs:
+            continue
+        texts = {}
+        for key, text, th in jobs[lang]:
+            texts.setdefault(key[0], {})[th] = (text, res[lang][key])
+        bad, okc, unk = [], 0, None
+        mark = lexicon(lang)['decimal_mark']
+        for i, d_ in texts.items():
+            if 0.0 not in d_ or 10.0 not in d_:
+                continue
+            text, r0 = d_[0.0]
+            r10 = d_[10.0][1]
+            if '?' in (r0[0], r10[0]):
+                unk = (text, (r0 if r0[0] == '?' else r10)[1])
+                break
+            if r0[0] != 'ok' or r10[0] != 'ok':
+                continue
+            o0, o10 = [tuple(o) for o in r0[1]], [tuple(o) for o in r10[1]]
+            total += 1
+            extra_ = [o for o in o10 if o not in o0]
+            if extra_:
+                bad.append((text, 'at threshold 10 it reports %s, which threshold 0 does not' % (extra_[:2],)))
+                continue
+            lost = [o for o in o0 if o not in o10 and not ((len(_digits(o[2])) == 1 and mark not in o[2] or o[4]) and o[3] < 10.0)]
+            if lost:
+                bad.append((text, 'threshold 10 hides %s, which is not a small number' % (lost[:2],)))
+            else:
+                okc += 1
+        if unk:
+            rep.anchor(R, lang, 'cannot interpret find_numbers on %r: %s' % unk)
+            continue
+        rep.check(not bad, R, lang, '%d texts' % okc, 'in %r: %s (%d texts)' % (bad[0] + (len(bad),) if bad else ('', '', 0)))
+    rep.floor(R, total, 800, 'texts compared')
+
+
+def _digits(tx):
+    return ''.join(c for c in tx if c.isdigit())
+
+
+def _occ_tables(ctx, langs=ALL_LANGS):
     import re as _re
-    global _FACTS, _EV
     jobs = {}
     for lang in langs:
         lx = lexicon(lang)
@@ -698,6 +937,7 @@ def rule_occurrences_in_sentences(ctx, rep, langs=ALL_LANGS):
         texts.append('%s-%s %s' % (sp(20).split(' ')[0], w1, sp(30)))
         if lang == 'es':
             texts += ['un doceavo de %s' % w1, 'tres centavos']
+        texts += [t for t in corpus(lang, ctx.tier) if t not in texts]
         jobs[lang] = [((i, th), t, th) for i, t in enumerate(texts) for th in (0.0, 10.0)]
 
     def mk():
@@ -714,6 +954,18 @@ def rule_occurrences_in_sentences(ctx, rep, langs=ALL_LANGS):
                 parts = pool.map(_occ_work, js, chunksize=1)
         return {lang: dict(out) for lang, out in parts}
     res = getattr(ctx, 'memo_disk', ctx.memo)(('sent-occurrences', ctx.tier), mk)
+    return jobs, res
+
+
+def rule_occurrences_in_sentences(ctx, rep, langs=ALL_LANGS):
+    R = 'S06-OCCURRENCES'
+    rep.rule(R, 'find_numbers over the tokenizer\'s tokens of generated sentences (cardinals, ordinals, decimals, pairs, zeros) in each real language: '
+                'every span lies in the stream, spans increase and are disjoint, begin and end on a word token; the text is digits, optionally a '
+                'decimal mark and digits, optionally the ordinal marker (es 1/n); the value is the numeric reading of that text; the ordinal flag is '
+                'set exactly when the text carries a marker')
+    import re as _re
+    global _FACTS, _EV
+    jobs, res = _occ_tables(ctx)
     total = 0
     for lang in langs:
         lx = lexicon(lang)
@@ -819,6 +1071,7 @@ def rule_spans_validate(ctx, rep, langs=ALL_LANGS):
             o = ordinal_spellings(lang, n)
             if o:
                 texts.append('%s %s %s' % (' '.join(o[0]), sp(2), w2))
+        texts += [t for t in corpus(lang, ctx.tier) if t not in texts]
         jobs[lang] = [((i,), t, 0.0) for i, t in enumerate(texts)]
 
     def mk():
@@ -894,8 +1147,11 @@ def rule_numbers_after_linking(ctx, rep, langs=ALL_LANGS):
         for n, phrase in enumerate(phrases):
             items.append((('bare', n), '%s %s %s' % (w1, phrase, w2), 0.0))
             for li, lk in enumerate(links):
+                if ctx.tier != 'thorough' and li not in (0, len(links) - 1) and n % 4:
+                    continue           # quick: the conjunction and the separator word for every phrase, the other linking words for a quarter
                 items.append((('after', n, li), '%s %s %s %s' % (w1, lk, phrase, w2), 0.0))
-                items.append((('twice', n, li), '%s %s %s %s %s' % (w1, lk, lk, phrase, w2), 0.0))
+                if ctx.tier == 'thorough' or li == 0:
+                    items.append((('twice', n, li), '%s %s %s %s %s' % (w1, lk, lk, phrase, w2), 0.0))
         jobs[lang] = (items, links)
     res = _memo(ctx, 'sent-after-linking', {k: v[0] for k, v in jobs.items()})
     total = 0
@@ -920,7 +1176,7 @@ def rule_numbers_after_linking(ctx, rep, langs=ALL_LANGS):
             else:
                 okc += 1
         _report(rep, R, lang, 'after-linking', bad, okc)
-    rep.floor(R, total, 2000, 'sentences rewritten')
+    rep.floor(R, total, 900, 'sentences rewritten')
 
 
 def rule_linking_case(ctx, rep, langs=ALL_LANGS):
